@@ -296,6 +296,8 @@ class Data(object):
         if axis == verif.axis.All():
             I = np.where(valid == 0)
             for i in range(0, len(fields)):
+                # Don't modify the cached arrays, they are shared with other requests
+                scores[i] = scores[i].copy()
                 scores[i][I[0], I[1], I[2]] = np.nan
         else:
             I = np.where(valid)
